@@ -6,7 +6,8 @@
 # Prints a JSON summary on the last line.
 set -u
 OUT="$(readlink -f "$1")"; SKIP="${2:-}"
-W=/tmp/confirm-wt
+SFX="${CONFIRM_SFX:-}"
+W=/tmp/confirm-wt$SFX
 if [ ! -d "$W" ]; then
   git -C /repo worktree add --detach "$W" HEAD >/dev/null 2>&1 || exit 3
   mkdir -p "$W/target/debug"
@@ -23,22 +24,22 @@ if git apply --check "$OUT/patch.diff" 2>/dev/null && git apply "$OUT/patch.diff
 DEMO_CMD="$(python3 -c "import json;print(json.load(open('$OUT/meta.json'))['demo_cmd'])" 2>/dev/null)"
 # install the demo
 for f in "$OUT"/demo/*.rs; do [ -f "$f" ] && cp "$f" tests/; done
-if $applies && cargo build --offline >/tmp/confirm-build.log 2>&1 && cargo test --offline --no-run >>/tmp/confirm-build.log 2>&1; then builds=true; fi
+if $applies && cargo build --offline >/tmp/confirm-build$SFX.log 2>&1 && cargo test --offline --no-run >>/tmp/confirm-build$SFX.log 2>&1; then builds=true; fi
 if $builds; then
   if [ "$SKIP" != "--skip-suite" ]; then
     # the demo file is excluded from the 'existing suite' run
-    mkdir -p /tmp/confirm-hold; mv tests/$(basename "$(ls "$OUT"/demo/*.rs | head -1)") /tmp/confirm-hold/ 2>/dev/null
-    if cargo nextest run --workspace --no-fail-fast --offline --test-threads 8 >/tmp/confirm-suite.log 2>&1; then suite="pass"; else
-      fails="$(grep -E '^\s+(FAIL|SIGABRT|TIMEOUT)' /tmp/confirm-suite.log | sed -E 's/.*\) //' | sort -u | tr '\n' ';')"
+    mkdir -p /tmp/confirm-hold$SFX; mv tests/$(basename "$(ls "$OUT"/demo/*.rs | head -1)") /tmp/confirm-hold$SFX/ 2>/dev/null
+    if cargo nextest run --workspace --no-fail-fast --offline --test-threads 8 >/tmp/confirm-suite$SFX.log 2>&1; then suite="pass"; else
+      fails="$(grep -E '^\s+(FAIL|SIGABRT|TIMEOUT)' /tmp/confirm-suite$SFX.log | sed -E 's/.*\) //' | sort -u | tr '\n' ';')"
       # memvid::sketch::tests::test_sketch_candidate_speed asserts a 10 ms wall-clock bound and fails on a loaded machine
       # with or without any patch (it fails the same way on the unchanged tree under load)
       if [ "$fails" = "memvid-core memvid::sketch::tests::test_sketch_candidate_speed;" ]; then suite="pass"; else suite="FAIL: $fails"; fi
     fi
-    mv /tmp/confirm-hold/*.rs tests/ 2>/dev/null
+    mv /tmp/confirm-hold$SFX/*.rs tests/ 2>/dev/null
   fi
-  if (eval "timeout 900 $DEMO_CMD") >/tmp/confirm-demo-with.log 2>&1; then demo_with="pass"; else demo_with="fail"; fi
+  if (eval "timeout 900 $DEMO_CMD") >/tmp/confirm-demo-with$SFX.log 2>&1; then demo_with="pass"; else demo_with="fail"; fi
   git apply -R "$OUT/patch.diff"
-  if (eval "timeout 900 $DEMO_CMD") >/tmp/confirm-demo-without.log 2>&1; then demo_without="pass"; else demo_without="fail"; fi
+  if (eval "timeout 900 $DEMO_CMD") >/tmp/confirm-demo-without$SFX.log 2>&1; then demo_without="pass"; else demo_without="fail"; fi
 fi
 git checkout -q -- . ; git clean -fdq tests examples src 2>/dev/null
 python3 - <<PY
